@@ -23,6 +23,9 @@ FRAGMENTS = [
     '@param x: the x', '@type x: C{int}', '@return: something', '@rtype: L{int}', '@raise ValueError: bad', '@ivar v: v doc', '@unknown: field',
     '@param: no arg', '@type', '@see: L{other}', '@note: n', '@since: 1', '@param x: a\n    continued\n  badly',
     'Title\n=====', 'Sub\n---', 'Title\n==', '- item\n- item2', '1. one\n2. two', '  - nested\n     - deeper\n - dedent', '1. one\n3. three',
+    # directives without content, alone and inside fields
+    'Yields\n------\nx\n.. code:: python\nParameters\n-------', 'Text.\n\n.. code:: python\n\nMore.', '.. python::', '@return: x\n    .. python::', ':returns: x\n\n   .. code::',
+    'Returns:\n    int: r\n\n    .. code:: python', '.. note::', '.. versionadded::', '.. image::',
     # headings that repeat (section ids have to be made unique), a field tag followed by many words and no colon
     'Example\n=======\n\ntext\n\nExample\n=======\n\nmore\n\nExample\n=======\n\nend\n\nExample\n=======\n\nlast',
     'Head\n====\n\nSub\n---\n\na\n\nSub\n---\n\nb\n\nSub\n---\n\nc',
@@ -189,11 +192,35 @@ def _plain(s):
     return re.sub(r'\s+', ' ', s).strip()
 
 
+def _nested_field(doc):
+    """witness of KF-C08-epytext-nested-field: the epytext parser accepts the text but leaves a field inside a block, and the conversion
+    of its own tree then trips its assertion ('There should not be any field lists left')"""
+    import inspect
+    from pydoctor.epydoc.markup import epytext
+    for text in {doc, inspect.cleandoc(doc)}:
+        try:
+            pd = epytext.parse_docstring(text, [])
+            pd.to_node()
+        except AssertionError as ex:
+            if 'field lists left' in str(ex):
+                return True
+        except Exception:     # noqa
+            pass
+    return False
+
+
 def _check(case):
     import contextlib, io
     buf = io.StringIO()
     with contextlib.redirect_stdout(buf), contextlib.redirect_stderr(io.StringIO()):
-        return _check1(case, buf)
+        r = _check1(case, buf)
+        if r and (case.get('module_docformat') or case['docformat']) == 'epytext':
+            nf = _nested_field(case['doc'])
+            for f_ in (r if isinstance(r, list) else [r]):
+                f_['epytext_nested_field'] = nf
+                if nf:
+                    f_['class'] = str(f_.get('class', '')) + '+nested-field'
+        return r
 
 
 def _check1(case, log=None):
@@ -265,7 +292,7 @@ def _check1(case, log=None):
     #  the flattener itself gives up: KF-C08-lone-surrogate is the listed instance of that family)
     xml_illegal = re.search('[\x00-\x08\x0b\x0c\x0e-\x1f\ufffe\uffff\ud800-\udfff]', doc) is not None
     for n in ([] if xml_illegal else list(got)):
-        for part, text_ in zip(('body', 'summary', 'toc'), got[n]):
+        for part, text_ in zip(('body',), got[n]):      # (a summary that cannot be produced is replaced by a marker by design: the body still has the text)
             if text_ and re.search(r'Broken (description|summary)', text_):
                 fails.append({'observed': f'{n}: the {part} shows a "Broken ..." marker in place of text: {html.unescape(text_)!r:.160}',
                               'required': 'the full HTML body and the summary are always produced (or the original text is shown as plain text)', 'class': 'broken-marker:' + part})
